@@ -25,6 +25,46 @@ use chess_movegen::{Board, ChessMove};
 use colorz::Colorize as _;
 pub use score::Score;
 
+/// Event log for the external verification harness: one event per linearization point of the
+/// iterative-deepening loop, in a thread-local buffer that is off unless a test turns it on.
+#[cfg(rustyyato_chess_verif)]
+pub mod verif {
+    use super::{ChessMove, Score};
+    use std::cell::RefCell;
+
+    #[derive(Debug, Clone, Copy, PartialEq, Eq)]
+    pub enum Event {
+        /// a deepening pass starts
+        Pass { depth: u16 },
+        /// a root move was searched (phase 0 = previous best, 1 = captures, 2 = other moves)
+        Root { phase: u8, mv: ChessMove, score: Score },
+        /// the pass completed before the limit and its result was adopted
+        Commit { depth: u16, mv: Option<ChessMove>, score: Score },
+        /// a poll of the time limit reported by the harness's own Timeout object
+        Poll { expired: bool },
+    }
+
+    thread_local! {
+        static LOG: RefCell<Option<Vec<Event>>> = const { RefCell::new(None) };
+    }
+
+    pub fn start() {
+        LOG.with(|l| *l.borrow_mut() = Some(Vec::new()));
+    }
+
+    pub fn take() -> Vec<Event> {
+        LOG.with(|l| l.borrow_mut().take().unwrap_or_default())
+    }
+
+    pub fn emit(event: Event) {
+        LOG.with(|l| {
+            if let Some(log) = l.borrow_mut().as_mut() {
+                log.push(event)
+            }
+        });
+    }
+}
+
 #[derive(Default)]
 pub struct Engine {
     pub moves_evaluated: u64,
@@ -269,6 +309,8 @@ impl Engine {
 
         loop {
             tracing::debug!(color = ?P::COLOR, depth, board=%board, "start depth");
+            #[cfg(rustyyato_chess_verif)]
+            verif::emit(verif::Event::Pass { depth });
             let mut score = P::WORST_SCORE;
             let mut best_mv_at = None;
 
@@ -289,6 +331,8 @@ impl Engine {
                 moves.remove_move(mv);
 
                 let new = self.alphabeta::<P::Flip>(mv, &args);
+                #[cfg(rustyyato_chess_verif)]
+                verif::emit(verif::Event::Root { phase: 0, mv, score: new });
 
                 if timeout.is_complete() {
                     break;
@@ -312,6 +356,8 @@ impl Engine {
 
             for mv in &mut moves {
                 let new = self.alphabeta::<P::Flip>(mv, &args);
+                #[cfg(rustyyato_chess_verif)]
+                verif::emit(verif::Event::Root { phase: 1, mv, score: new });
 
                 if timeout.is_complete() {
                     break;
@@ -333,6 +379,8 @@ impl Engine {
 
             for mv in moves {
                 let new = self.alphabeta::<P::Flip>(mv, &args);
+                #[cfg(rustyyato_chess_verif)]
+                verif::emit(verif::Event::Root { phase: 2, mv, score: new });
 
                 if timeout.is_complete() {
                     break;
@@ -355,6 +403,8 @@ impl Engine {
             best_mv = best_mv_at;
             best_score = score;
             self.max_depth = depth;
+            #[cfg(rustyyato_chess_verif)]
+            verif::emit(verif::Event::Commit { depth, mv: best_mv, score: best_score });
             depth += 1;
 
             match score {
